@@ -8,6 +8,7 @@ use std::panic::{catch_unwind, AssertUnwindSafe};
 mod cases;
 mod json;
 mod tess;
+mod clip;
 
 fn main() {
     let args: Vec<String> = std::env::args().collect();
